@@ -12,7 +12,7 @@ import (
 
 const c16Iv = 250 * time.Millisecond
 
-//verif:entry tier=quick,thorough steps=3000000 cover=expired,boundary
+//verif:entry native tier=quick,thorough steps=3000000 cover=expired,boundary
 //verif:doc RollingWindow: size 1..3 (quick) / 1..4 (thorough), interval 250ms, creation time symbolic, k=2 (quick) / 3 (thorough) Adds at symbolic non-decreasing times (gaps 0..(size+2) intervals, any nanosecond), symbolic values, then Reduce at a symbolic later time; with and without IgnoreCurrentBucket. Oracle: interval index arithmetic aligned to the creation time.
 func Verif_C16_RollingWindow() {
 	maxSize, k := 3, 2
